@@ -17,6 +17,7 @@ long aw_live(void);			/* live tracked allocations */
 long aw_live_id(const void *);		/* id (>=1) of the live allocation at this address, 0 if none */
 size_t aw_live_size(const void *);
 size_t aw_last_realloc_size(void);	/* size of the block most recently returned by a realloc, 0 if freed */
+void aw_recycle(int on);		/* on: a released tracked block is handed out again by the next request of its size; off: really release them */
 void aw_enable(int on);			/* tracking/injection on or off (off: passes straight through) */
 extern void (*aw_free_hook)(void *, size_t);	/* called before a tracked block is released */
 extern void (*aw_strdup_hook)(void *, size_t);	/* called when the library duplicated a string into a new block */
